@@ -17,7 +17,7 @@ use librqbit_dualstack_sockets::PollSendToVectored;
 use librqbit_utp::verif::{DispatcherDriver, UtpEnvironment};
 use librqbit_utp::{SocketOpts, Transport, UtpSocket, UtpStream, UtpStreamReadHalf, UtpStreamWriteHalf};
 use parking_lot::Mutex;
-use tokio::io::{AsyncRead, AsyncWrite, ReadBuf};
+use tokio::io::ReadBuf;
 use tokio_util::sync::CancellationToken;
 
 use crate::util::hex_encode;
@@ -130,6 +130,8 @@ struct Call {
     task: Option<tokio::task::JoinHandle<()>>,
     reader: Option<UtpStreamReadHalf>,
     writer: Option<UtpStreamWriteHalf>,
+    /// every other call keeps its `UtpStream` whole and goes through its own AsyncRead/AsyncWrite impl (stream.rs)
+    whole: Option<UtpStream>,
     taken: bool,
     wpos: usize,
     tag: usize,
@@ -192,9 +194,13 @@ fn call_state(c: &mut Call) -> String {
             Some(Ok(s)) => {
                 c.taken = true;
                 let remote = s.remote_addr().port();
-                let (r, w) = s.split();
-                c.reader = Some(r);
-                c.writer = Some(w);
+                if c.tag % 2 == 1 {
+                    c.whole = Some(s);
+                } else {
+                    let (r, w) = s.split();
+                    c.reader = Some(r);
+                    c.writer = Some(w);
+                }
                 return format!("ok:remote={remote}");
             }
             Some(Err(e)) => {
@@ -282,7 +288,7 @@ pub fn step_net(st: &mut NetSt, args: &[&str]) -> String {
                     *slot2.lock() = Some(r);
                 });
                 let tag = id.parse::<usize>().unwrap_or(0) % 100;
-                s.calls.insert(format!("c{id}"), Call { slot, task: Some(task), reader: None, writer: None, taken: false, wpos: 0, tag });
+                s.calls.insert(format!("c{id}"), Call { slot, task: Some(task), reader: None, writer: None, whole: None, taken: false, wpos: 0, tag });
                 settle(&s.rt, 20);
                 "ok".into()
             }
@@ -298,7 +304,7 @@ pub fn step_net(st: &mut NetSt, args: &[&str]) -> String {
                     *slot2.lock() = Some(r);
                 });
                 let tag = 100 + id.parse::<usize>().unwrap_or(0) % 100;
-                s.calls.insert(format!("a{id}"), Call { slot, task: Some(task), reader: None, writer: None, taken: false, wpos: 0, tag });
+                s.calls.insert(format!("a{id}"), Call { slot, task: Some(task), reader: None, writer: None, whole: None, taken: false, wpos: 0, tag });
                 settle(&s.rt, 20);
                 "ok".into()
             }
@@ -331,7 +337,11 @@ pub fn step_net(st: &mut NetSt, args: &[&str]) -> String {
             (Some(c), Ok(n)) if n <= 1 << 20 => {
                 let _g = s.rt.enter();
                 let _ = call_state(c);
-                let r = match c.writer.as_mut() {
+                let wr: Option<&mut (dyn tokio::io::AsyncWrite + Unpin)> = match c.whole.as_mut() {
+                    Some(ws) => Some(ws),
+                    None => c.writer.as_mut().map(|w| w as &mut (dyn tokio::io::AsyncWrite + Unpin)),
+                };
+                let r = match wr {
                     None => "nostream".to_string(),
                     Some(w) => {
                         let b: Vec<u8> = (0..n).map(|j| (((c.wpos + j) * 7 + 3 + c.tag * 37) % 251) as u8).collect();
@@ -356,7 +366,11 @@ pub fn step_net(st: &mut NetSt, args: &[&str]) -> String {
             (Some(c), Ok(n)) if n <= 1 << 20 => {
                 let _g = s.rt.enter();
                 let _ = call_state(c);
-                let r = match c.reader.as_mut() {
+                let rd: Option<&mut (dyn tokio::io::AsyncRead + Unpin)> = match c.whole.as_mut() {
+                    Some(ws) => Some(ws),
+                    None => c.reader.as_mut().map(|r| r as &mut (dyn tokio::io::AsyncRead + Unpin)),
+                };
+                let r = match rd {
                     None => "nostream".to_string(),
                     Some(r) => {
                         let mut buf = vec![0u8; n];
@@ -382,7 +396,11 @@ pub fn step_net(st: &mut NetSt, args: &[&str]) -> String {
             Some(c) => {
                 let _g = s.rt.enter();
                 let _ = call_state(c);
-                let r = match c.writer.as_mut() {
+                let wr: Option<&mut (dyn tokio::io::AsyncWrite + Unpin)> = match c.whole.as_mut() {
+                    Some(ws) => Some(ws),
+                    None => c.writer.as_mut().map(|w| w as &mut (dyn tokio::io::AsyncWrite + Unpin)),
+                };
+                let r = match wr {
                     None => "nostream".to_string(),
                     Some(w) => {
                         let mut cx = Context::from_waker(Waker::noop());
@@ -406,6 +424,7 @@ pub fn step_net(st: &mut NetSt, args: &[&str]) -> String {
                 let _ = call_state(c);
                 c.reader = None;
                 c.writer = None;
+                c.whole = None;
                 drop(_g);
                 settle(&s.rt, 20);
                 "ok".into()
